@@ -47,7 +47,11 @@ type index struct {
 	fresh  bool   // created by the running transaction
 }
 
-type check struct{ e expr }
+type check struct {
+	e     expr
+	name  string // constraint name in the catalog (declared, or the engine's <table>_check<n>)
+	named bool   // declared with CONSTRAINT <name>
+}
 
 // row maps column id -> non-NULL value. A stored row is never mutated.
 type row map[int]V
@@ -548,10 +552,11 @@ const (
 	kAddCol
 	kDropCol
 	kRenameCol
+	kDropCheck
 )
 
 func (k stmtKind) String() string {
-	return [...]string{"insert", "upsert", "insert-do-nothing", "insert-do-update", "update", "delete", "create-index", "add-column", "drop-column", "rename-column"}[k]
+	return [...]string{"insert", "upsert", "insert-do-nothing", "insert-do-update", "update", "delete", "create-index", "add-column", "drop-column", "rename-column", "drop-constraint"}[k]
 }
 
 func (k stmtKind) ddl() bool { return k >= kCreateIndex }
@@ -829,6 +834,22 @@ func (m *model) apply(s *stmt) outcome {
 			}
 		}
 		t.cols = nc
+	case kDropCheck:
+		var keep []check
+		found := false
+		for _, ck := range t.checks {
+			if ck.name == s.newName {
+				found = true
+				continue
+			}
+			keep = append(keep, ck)
+		}
+		if !found {
+			o.expectErr = "no such constraint"
+			return o
+		}
+		t.checks = keep
+		o.note("check-constraint-dropped")
 	case kRenameCol:
 		c := t.col(s.cid)
 		if c == nil || t.colByName(s.newName) != nil {
